@@ -1455,17 +1455,15 @@ fn binary_search_by_time_us(time_us: u64, fc: &FileContext, stream: &StreamConte
     } else {
         BTreeMap::<LifecycleId, u64>::new()
     };
-    let all_msgs_idx = fc
-        .all_msgs
-        .binary_search_by(|m| {
-            let m_time = if let Some(lc_start_time) = lc_id_map.get(&m.lifecycle) {
-                lc_start_time + m.timestamp_us()
-            } else {
-                m.reception_time_us
-            };
-            m_time.cmp(&time_us)
-        })
-        .unwrap_or_else(|e| e);
+    // the first msg that is not before that time (there can be multiple msgs with the same time)
+    let all_msgs_idx = fc.all_msgs.partition_point(|m| {
+        let m_time = if let Some(lc_start_time) = lc_id_map.get(&m.lifecycle) {
+            lc_start_time + m.timestamp_us()
+        } else {
+            m.reception_time_us
+        };
+        m_time < time_us
+    });
     if stream.filters_active {
         // return the index that fits to that:
         // binary_search is ok as the filtered_msgs are sorted by all_msgs index! (not by msg index)
